@@ -8,7 +8,7 @@
    call's input history, the tool executions grouped by round (in call order), the messages
    handed out by react.WithMessageFuture (if used), and the final answer or error class
    (1 = step limit, 2 = model failure, 3 = anything else: tools node, concatenation, ...). *)
-From Eino Require Import Base.Util Model.Graph Model.Tools Model.React Model.ReactGraph.
+From Eino Require Import Base.Util Model.Graph Model.Tools Model.React Model.ReactGraph Model.Host.
 Local Open Scope nat_scope.
 Local Open Scope string_scope.
 
@@ -22,6 +22,7 @@ Inductive tdef : Type := T (name : string) (k : tkind).
 
 Record ccase : Type := mkCase {
   k_tdefs : list tdef;
+  k_tool_list : option (list tdef); (* call option compose.WithToolList: the tools of the tools node for this call *)
   k_fail_args : list string;       (* a tool called with one of these argument strings fails *)
   k_handler : bool;                (* UnknownToolsHandler configured (answers "unk:name:args") *)
   k_rd : list string;              (* ToolReturnDirectly *)
@@ -32,6 +33,8 @@ Record ccase : Type := mkCase {
   k_mod : N;                       (* 1: in-place rewrite of the first message, 2: in-place window of 3; else by k_persona *)
   k_input : list omsg;
   k_script : list step;
+  k_cbt : list bool;               (* per scripted reply: the harness's structural test of the known finding's
+                                      signature (a content chunk before the first tool-call chunk) *)
   k_runs : list orun }.
 
 (* ---- the tools of the harness ---------------------------------------------------------- *)
@@ -56,12 +59,20 @@ Fixpoint kind_lookup (tools : list tdef) (name : string) : option tkind :=
 Definition h_handler (on : bool) : option (string -> string -> tres) :=
   if on then Some (fun n a => TOk ("unk:" ++ n ++ ":" ++ a)) else None.
 
-Definition case_tn (c : ccase) (calls : list call) : res (list tmsg) :=
-  in_graph (tools_invoke (kind_lookup (k_tdefs c)) (h_inv (k_fail_args c)) (h_str (k_fail_args c))
+(* the tools the tools node works with in a run: a call-time list replaces the configured one
+   (compose/tool_node.go Invoke/Stream: opt.ToolList != nil) *)
+Definition case_tdefs (c : ccase) (callopts : bool) : list tdef :=
+  match k_tool_list c with
+  | Some l => if callopts then l else k_tdefs c
+  | None => k_tdefs c
+  end.
+
+Definition case_tn (c : ccase) (callopts : bool) (calls : list call) : res (list tmsg) :=
+  in_graph (tools_invoke (kind_lookup (case_tdefs c callopts)) (h_inv (k_fail_args c)) (h_str (k_fail_args c))
                          (h_handler (k_handler c)) (seq 0 (List.length calls)) true calls).
 
-Definition case_executed (c : ccase) (calls : list call) : list call :=
-  tools_executed (kind_lookup (k_tdefs c)) (h_handler (k_handler c)) true calls.
+Definition case_executed (c : ccase) (callopts : bool) (calls : list call) : list call :=
+  tools_executed (kind_lookup (case_tdefs c callopts)) (h_handler (k_handler c)) true calls.
 
 (* ---- rendering and equality -------------------------------------------------------------- *)
 Definition role_n (r : role) : N :=
@@ -109,9 +120,9 @@ Definition case_modifier (c : ccase) : list msg -> list msg :=
 
 Definition case_trace (c : ccase) (md : omode) (callopts : bool) : trace :=
   let rdn := nonempty (k_rd c) in
-  agent_run (case_tn c) (fun n => mem_str n (k_rd c)) rdn
+  agent_run (case_tn c callopts) (fun n => mem_str n (k_rd c)) rdn
             (case_modifier c)
-            (fun cl => match kind_lookup (k_tdefs c) (c_name cl) with Some _ => true | None => false end)
+            (fun cl => match kind_lookup (case_tdefs c callopts) (c_name cl) with Some _ => true | None => false end)
             (if k_default_checker c then default_checker else exact_checker)
             (match md with MGenerate => Generate | MStream => Stream end)
             (call_max_steps (k_max_step c) (if callopts then k_runtime_max c else 0%nat) rdn)
@@ -121,18 +132,18 @@ Definition case_trace (c : ccase) (md : omode) (callopts : bool) : trace :=
    WithRuntimeMaxSteps replaces the compiled limit, which for the engine model is the graph's g_max *)
 Definition case_engine_trace (c : ccase) (md : omode) (callopts : bool) : option trace :=
   let rdn := nonempty (k_rd c) in
-  engine_trace (case_tn c) (fun n => mem_str n (k_rd c)) rdn
+  engine_trace (case_tn c callopts) (fun n => mem_str n (k_rd c)) rdn
             (case_modifier c)
-            (fun cl => match kind_lookup (k_tdefs c) (c_name cl) with Some _ => true | None => false end)
+            (fun cl => match kind_lookup (case_tdefs c callopts) (c_name cl) with Some _ => true | None => false end)
             (if k_default_checker c then default_checker else exact_checker)
             (match md with MGenerate => Generate | MStream => Stream end)
             (match (if callopts then k_runtime_max c else 0) with 0 => k_max_step c | r => r end)
             (k_script c) (map msg_of (k_input c)).
 
-Definition trace_ok (c : ccase) (t : trace) (inputs : list (list omsg)) (rounds : list (list call))
+Definition trace_ok (c : ccase) (callopts : bool) (t : trace) (inputs : list (list omsg)) (rounds : list (list call))
            (emits : option (list omsg)) (out : oout) : bool :=
   list_eqb (list_eqb msg_eqb) (t_inputs t) inputs
-  && list_eqb (list_eqb call_eqb) (filter nonempty (map (case_executed c) (t_rounds t))) rounds
+  && list_eqb (list_eqb call_eqb) (filter nonempty (map (case_executed c callopts) (t_rounds t))) rounds
   && match emits with Some es => list_eqb msg_eqb (t_emits t) es | None => true end
   && out_eqb (t_out t) out.
 
@@ -141,12 +152,76 @@ Definition trace_ok (c : ccase) (t : trace) (inputs : list (list omsg)) (rounds 
 Definition run_ok (c : ccase) (r : orun) : bool :=
   match r with
   | ORun md callopts inputs rounds emits out =>
-      trace_ok c (case_trace c md callopts) inputs rounds emits out
+      trace_ok c callopts (case_trace c md callopts) inputs rounds emits out
       && match case_engine_trace c md callopts with
-         | Some t => trace_ok c t inputs rounds emits out
+         | Some t => trace_ok c callopts t inputs rounds emits out
          | None => false
          end
   end.
 
-Definition bad (c : ccase) : bool := negb (forallb (run_ok c) (k_runs c)).
-Definition mismatches (cs : list ccase) : list nat := mismatches_from bad 0 cs.
+(* the harness classifies "content before the tool call" exactly as the theorems' hypothesis does *)
+Definition cbt_ok (c : ccase) : bool :=
+  list_eqb Bool.eqb
+    (map (fun s => match s with SMsg _ _ chunks => content_before_toolcall chunks | SFail => false end) (k_script c))
+    (k_cbt c).
+
+Definition bad (c : ccase) : bool := negb (forallb (run_ok c) (k_runs c) && cbt_ok c).
+
+(* ---- host multi-agent cases (Model/Host.v) ----------------------------------------------- *)
+Inductive hrun : Type :=
+  HRun (md : omode) (host_input : list omsg) (handoffs : list (string * list omsg))
+       (events : option (list (string * string))) (out : oout).
+
+Record hcase : Type := mkHCase {
+  h_prompt : string;               (* Host.SystemPrompt ("" = default) *)
+  h_specs : list hspec;
+  h_failing : list string;         (* specialists that fail *)
+  h_default_checker : bool;
+  h_input : list omsg;
+  h_reply : step;
+  h_runs : list hrun }.
+
+(* the specialists of the harness answer  name # i^(number of input messages) # first content *)
+Definition h_answer (fails : list string) (name : string) (input : list msg) : res msg :=
+  if mem_str name fails then Err 100
+  else Ok (assistant (name ++ "#" ++ concat_strings (map (fun _ => "i") input) ++ "#"
+                      ++ match input with m :: _ => m_content m | [] => "" end) []).
+
+Definition herr_cls (e : herr) : N := match e with HModel => 2 | _ => 3 end.
+
+Definition hout_eqb (o : hout) (x : oout) : bool :=
+  match o, x with
+  | HFinal m, OFinal om => msg_eqb m om
+  | HFailed e, OErr cls => N.eqb (herr_cls e) cls
+  | _, _ => false
+  end.
+
+Definition pair_str_eqb (a b : string * string) : bool :=
+  String.eqb (fst a) (fst b) && String.eqb (snd a) (snd b).
+
+Definition hrun_ok (h : hcase) (r : hrun) : bool :=
+  match r with
+  | HRun md host_in handoffs events out =>
+      let t := host_run (h_answer (h_failing h)) (h_prompt h) (h_specs h)
+                        (if h_default_checker h then default_checker else exact_checker)
+                        (match md with MGenerate => Generate | MStream => Stream end)
+                        (h_reply h) (map msg_of (h_input h)) in
+      list_eqb msg_eqb (ht_host_input t) host_in
+      && match ht_handoff t, handoffs with
+         | None, [] => true
+         | Some (n, i), [(n', i')] => String.eqb n n' && list_eqb msg_eqb i i'
+         | _, _ => false
+         end
+      && match events with Some es => list_eqb pair_str_eqb (ht_events t) es | None => true end
+      && hout_eqb (ht_out t) out
+  end.
+
+Inductive acase : Type := ReactCase (c : ccase) | HostCase (h : hcase).
+
+Definition abad (a : acase) : bool :=
+  match a with
+  | ReactCase c => bad c
+  | HostCase h => negb (forallb (hrun_ok h) (h_runs h))
+  end.
+
+Definition mismatches (cs : list acase) : list nat := mismatches_from abad 0 cs.
